@@ -1418,6 +1418,25 @@ Hwrite(int32 access_id, int32 length, const void *data)
            the offset parameter means not to change the offset in the DD. */
         if (HTPupdate(access_rec->ddid, -2, access_rec->posn + length) == FAIL)
             HGOTO_ERROR(DFE_INTERNAL, FAIL);
+
+        /* a gap between the old end of the element and the write position
+           belongs to the element from now on and reads as zeros, whatever the
+           file held there before (the element may have been truncated) */
+        if (data_len >= 0 && access_rec->posn > data_len) {
+            uint8 zeros[512];
+            int32 gap = access_rec->posn - data_len;
+
+            memset(zeros, 0, sizeof(zeros));
+            if (HPseek(file_rec, data_off + data_len) == FAIL)
+                HGOTO_ERROR(DFE_SEEKERROR, FAIL);
+            while (gap > 0) {
+                int32 piece = (gap > (int32)sizeof(zeros)) ? (int32)sizeof(zeros) : gap;
+
+                if (HP_write(file_rec, zeros, piece) == FAIL)
+                    HGOTO_ERROR(DFE_WRITEERROR, FAIL);
+                gap -= piece;
+            }
+        }
     } /* end if */
 
     /* seek and write data */
